@@ -39,7 +39,7 @@ DEFAULTS = dict(
     n_comp=(2, 12), n_src=(1, 1), mux=0.0, polarity="pos", regime="benign", tables=0.3, general2d=0.3,
     phases=0.0, rails=0.0, via_rail=0.5, groups=0.0, rt=0.4, dead=0.0, names="plain", loss_flag=0.3,
     neg_mag=0.0, ints=0.15, max_depth=6, phase_conf=0.5, sleep=0.5, mux_list_rs=0.5, iq=0.5,
-    shape=None, neg_src_rs=0.0, mux_inputs=(1, 4),
+    shape=None, neg_src_rs=0.0, mux_inputs=(1, 4), tiny=0.03, explicit_zeros=0.08,
 )
 
 
@@ -97,6 +97,10 @@ class _Gen:
         r, o = self.r, self.o
         n_src = r.randint(*o["n_src"])
         n_comp = r.randint(*o["n_comp"])
+        tiny = r.random() < o["tiny"]
+        if tiny:
+            # degenerate but legitimate: a system that is just its source(s), or a source with a single component
+            n_comp = r.choice([0, 1, 1])
         snames, cnames = self._names(n_src, n_comp)
         shape = o["shape"] or r.choice(["chain", "star", "bushy", "random", "random"])
         for s in snames:
@@ -146,6 +150,15 @@ class _Gen:
         self._electrical()
         self._phases()
         self._labels()
+        if r.random() < o["explicit_zeros"]:
+            # optional magnitudes spelled out as exactly 0 / 0.0 (the neutral value given explicitly, also as an int)
+            ZERO_OK = {"Converter": ["iq", "iis", "rt"], "LinReg": ["vdrop", "ig", "iis", "rt"], "PSwitch": ["rs", "ig", "iis", "rt"],
+                       "PMux": ["rs", "ig", "iis", "rt"], "RLoss": ["rt"], "VLoss": ["rt"], "PLoad": ["pwrs", "rt"], "ILoad": ["iis", "rt"],
+                       "RLoad": ["rt"], "Source": ["rs"]}
+            for n in self.nodes:
+                for k_ in ZERO_OK.get(n["kind"], []):
+                    if k_ not in n["args"] and r.random() < 0.6:
+                        n["args"][k_] = r.choice([0.0, 0.0, 0])
         comps = []
         for n in self.nodes:
             comps.append({
